@@ -107,7 +107,7 @@ def run(ctx):
         u = bitarray([0] * 28)
         u[i] = 1
         samples.append(sample("68_28", u, impolite=i % 2 == 0))
-    n = 400 if ctx.quick else 6000
+    n = 400 if ctx.quick else 40000
     for _ in range(n):
         samples.append(sample("128_72", bitarray([rng.getrandbits(1) for _ in range(72)]), impolite=bool(rng.getrandbits(1)), little=len(samples) % 4 == 1))
         samples.append(sample("68_28", bitarray([rng.getrandbits(1) for _ in range(28)]), impolite=bool(rng.getrandbits(1)), little=len(samples) % 3 == 0))
